@@ -52,6 +52,10 @@ def main():
         if twin:
             scratch = os.environ["VF_SCRATCH"]
             src_path, fn_name = _gen_twin(src_path, fn_name, scratch)
+        # prints of the code under test (warnings, tracebacks of handler faults) are discarded
+        if os.environ.get("VF_WORKER_VERBOSE") != "1":
+            sys.stdout = open(os.devnull, "w")
+            sys.stderr = sys.stdout
         spec = importlib.util.spec_from_file_location("harness_" + modname, src_path)
         mod = importlib.util.module_from_spec(spec)
         sys.modules[spec.name] = mod
